@@ -1044,6 +1044,23 @@ def _os_close(fd):
     return _os.close(fd)
 
 
+class EqualStartsRandom(_rrandom.Random):
+    """A random.Random for the code under test whose randint() and getrandbits(64) always give the same value:
+    every sequence / session generator created starts at the same point (one of the outcomes real randomness
+    can produce).  Everything else (os.urandom for connection ids) stays pseudo-random."""
+    def __init__(self, value, seed=0):
+        super().__init__(seed)
+        self.value = value
+
+    def randint(self, a, b):
+        return min(max(self.value, a), b)
+
+    def getrandbits(self, k):
+        if k == 64:
+            return self.value & ((1 << 64) - 1)
+        return super().getrandbits(k)
+
+
 def _os_urandom(n):
     k = _current
     if k is None:
